@@ -3,7 +3,7 @@ package main
 // Per-property stated bounds and assumptions (copied into evidence).
 
 const commonQuick = "all integers, lengths and head arguments are symbolic 64-bit values unless stated; byte-string contents are opaque arrays; loops are unrolled exactly (container sizes are concrete per path); per-query solver timeout 30 s; per-harness wall-clock budget 240 s. "
-const commonThorough = "as quick, with the wider shape bounds below; per-query solver timeout 300 s; per-harness budget 10 min, path cap 3,000,000. "
+const commonThorough = "as quick, with the wider shape bounds below; per-query solver timeout 300 s; per-harness budget 6 min, path cap 3,000,000. "
 
 var propBounds = map[string]map[string]string{
 	"C01": {"quick": commonQuick + "7 algorithms x {Sign1 tagged/untagged/detached, Sign with 1-2 signers, countersignatures over 4 parent kinds ptr/value constructed/decoded, Countersign0, hash envelope, keys from COSE_Key, native and opaque (wrapped crypto.Signer) keys, 1-4 countersignatures attached to a COSE_Sign1 or to a signer inside a COSE_Sign and sent over the wire}; one message dimension varied at a time; header maps <= 2 entries; payload/external length 0..2^31-1.",
